@@ -25,13 +25,16 @@ macro_rules! h {
         #[kani::stub(std::alloc::alloc, alloc_stub)]
         #[kani::stub(alloc::alloc::dealloc_nonnull, dealloc_stub)]
         fn $name() {
-            $body
+            crate::ghost::arm();
+            $body;
+            kani::cover!(true, "end of harness reached");
         }
     };
 }
 
 #[kani::proof]
 fn q_sizes_and_niches() {
+    crate::ghost::arm();
     const W: usize = size_of::<usize>();
     macro_rules! one_word {
         ($($t:ty),*) => {$(
